@@ -161,4 +161,16 @@ def reorderCols (A : List (List Rat)) (ncols : Nat) (selector : List Int) : List
   A.map fun row =>
     (selector.map fun s => if s == -1 then (0 : Rat) else row.getD s.toNat 0) ++ row.drop (ncols - numAux)
 
+/-! ### the conic form of a box -/
+
+/-- the rows `(a, b)` (meaning `a·x + b ≥ 0`) of the conic form of the box `lo ≤ x ≤ hi` as `SigDomain(coniclifts_cons=[x >= lo, x <= hi])`
+    compiles it: `x_l − lo_l ≥ 0` for every coordinate, then `hi_l − x_l ≥ 0` for every coordinate; all rows in `+` cones -/
+def boxRowsF {N : Nat} (lo hi : Fin N → Rat) : List (List Rat × Rat) :=
+  (List.ofFn fun l : Fin N => (List.ofFn fun l' : Fin N => if l = l' then (1 : Rat) else 0, -lo l)) ++
+  (List.ofFn fun l : Fin N => (List.ofFn fun l' : Fin N => if l = l' then (-1 : Rat) else 0, hi l))
+
+/-- the same on lists (the driver's entry point) -/
+def boxRows (lo hi : List Rat) : List (List Rat × Rat) :=
+  boxRowsF (N := lo.length) (fun l => lo.getD l.val 0) (fun l => hi.getD l.val 0)
+
 end Sageopt.Domain
